@@ -105,7 +105,7 @@ def traceOp (pointsOnly : Bool) (w : Wrapper) (pb : Problem) (qs : List (List Ra
     let failed := checkTrace w expF logF pb mt.fn tol vtol r
     (s!"{showOptList r.start} {showBVs r.optLower} {showBVs r.optUpper} {showList (r.run.history.map (·.2))} " ++
      s!"{showVecs r.run.evals} {showOptList r.result} {match r.reported with | none => "N" | some f => showRat f} " ++
-     (if failed.isEmpty then "-" else ",".intercalate failed) ++ (if answerEvaluated r.run then " 1" else " 0"), r)
+     (if failed.isEmpty then "-" else ",".intercalate failed) ++ (if answerEvaluated vtol r.run then " 1" else " 0"), r)
   let (s0, r0) := render 0
   let (s1, _) := render 1
   if s0 != s1 then "err missing_table_entry" else
